@@ -183,8 +183,20 @@ class _TCallable(_TVal):
     name = "Callable"
 
 
+class _TNone(T):
+    """A field/parameter that is None (contract variant)."""
+
+    name = "None"
+
+    def fresh(self, st, hint):
+        return None
+
+    def sort(self):
+        raise Unsupported("None type has no sort")
+
+
 TInt, TBool, TReal, TStr, TVal = _TInt(), _TBool(), _TReal(), _TStr(), _TVal()
-TNd, TCallable = _TNd(), _TCallable()
+TNd, TCallable, TNone = _TNd(), _TCallable(), _TNone()
 val_none = z3.Const("val_none", ValS)
 val_of_int = z3.Function("val_of_int", z3.IntSort(), ValS)
 val_of_str = z3.Function("val_of_str", StrS, ValS)
